@@ -329,6 +329,33 @@ def is_process_entry(k):
     return bool(k) and k[-1] in ('probe', 'probe2', 'owner')
 
 
+def declaration_conflicts():
+    """declarations by several processes for ONE variable: compatible ones merge silently, incompatible units / values
+    raise at construction (fixed family; the generated cases above only ever declare compatible things)"""
+    from vivarium.library.units import units
+    fails = []
+    cases = [('same units', units.mg, units.mg, False), ('mg vs g', units.mg, units.g, True), ('g vs mg', units.g, units.mg, True),
+             ('mg vs um', units.mg, units.um, True), ('mm vs um', units.mm, units.um, True)]
+    for nested in (False, True):
+        for name, u1, u2, must_raise in cases:
+            def mk(u):
+                leaf_ = {'_default': 1.0 * u, '_units': u, '_updater': 'accumulate'}
+                return {'port': {'sub': {'x': leaf_}} if nested else {'x': leaf_}}
+            procs = {'a': Probe({'schema': mk(u1), 'updates': []}), 'b': Probe({'schema': mk(u2), 'updates': []})}
+            topo = {'a': {'port': ('store',)}, 'b': {'port': ('store',)}}
+            try:
+                eng = Engine(processes=procs, topology=topo, display_info=False, emitter='null')
+                raised = None
+            except Exception as e:       # noqa
+                raised = e
+            if must_raise and raised is None:
+                fails.append('two processes declare %s for one variable (nested=%s): no error at construction, the node has units %s'
+                             % (name, nested, eng.state.get_path(('store',) + (('sub',) if nested else ()) + ('x',)).units))
+            if not must_raise and raised is not None:
+                fails.append('two processes declare %s for one variable: construction raised %s' % (name, raised))
+    return fails[:3]
+
+
 def rebuild_with_override(case, probe, processes, topology):
     """the SAME process instances are built into a second store after a schema override was merged into the process:
     the second store must be built from what the process declares NOW"""
@@ -494,6 +521,10 @@ def main():
     a = ap.parse_args()
     if a.replay:
         case = json.load(open(a.replay))['scenario']
+        if case.get('declaration_conflicts'):
+            fails = declaration_conflicts()
+            L.emit_result({'status': 'reproduced' if fails else 'not-reproduced', 'failed': fails})
+            return
         fails = check_case(case, a.prop)
         L.emit_result({'status': 'reproduced' if fails else 'not-reproduced', 'failed': fails})
         return
@@ -515,6 +546,12 @@ def main():
             failures.append({'id': '%s.bounded.wiring#%d: %s' % (a.prop, i, fails[0][:220]), 'replay': rp})
             if len(failures) >= 3:
                 break
+    if a.prop == 'C15' and not a.replay:
+        evaluations += 1
+        fails = declaration_conflicts()
+        if fails:
+            rp = L.write_replay(a.out, 'C15', 'declarations', {'declaration_conflicts': True}, fails, extra={'driver': 'bounded.topo'})
+            failures.append({'id': 'C15.bounded.declarations: %s' % fails[0][:260], 'replay': rp})
     L.emit_result({'status': 'violated' if failures else 'ok', 'evaluations': evaluations,
                    'distinct_nontrivial': len(distinct), 'failures': failures, 'samples': samples,
                    'rule': 'seeded random (ports schema, topology, placement, partial initial state); non-trivial = >= 2 ports or '
